@@ -375,6 +375,7 @@ func followRule(r *node, ctx *Ctx) (err error) {
 			}
 		}
 		// Call getter callback func.
+		ctx.bufX = nil
 		err = r.getter(ctx, &ctx.bufX, ctx.bufA)
 		if err != nil {
 			return
